@@ -45,7 +45,7 @@ var propInfo = map[string]struct {
 	"C13": {"proof",
 		"Typestate of storage errors and read-only frames: every Storage / Cursor operation requires !failed and sets failed / lastErr on error; every plan function under contract has the postcondition failed ==> err == lastErr (the error is returned unchanged) and, by its precondition obligations at the call sites, issues no storage operation once one has failed; the scan plans, filter and limit plans have frames without the ghost write counters (nmut unchanged: no mutating call); buildDeletePlan returns only after Init and surfaces its error.",
 		[]string{
-			"scope: proved per API call of the functions listed under functions_under_contract (now including the Batch forms of the four scans and the grouping loops AggregatePlan.prepare / prepareBatch); the whole plan-building path is under contract for this property (BuildPlan, buildPlan, buildSelectPlan, buildFinalPlan, buildPutPlan, buildRemovePlan, buildDeletePlan: planning never issues a mutating operation and an error of a cursor creation / seek during Init is returned unchanged; Optimizer.init - parsing, checking, rewriting - is a thin assumed contract: it has no access to a store), as is FinalOrderPlan; ProjectionPlan.Batch is not",
+			"scope: proved per API call of the functions listed under functions_under_contract (now including the Batch forms of the four scans and the grouping loops AggregatePlan.prepare / prepareBatch); the whole plan-building path is under contract for this property (BuildPlan, buildPlan, buildSelectPlan, buildFinalPlan, buildPutPlan, buildRemovePlan, buildDeletePlan: planning never issues a mutating operation and an error of a cursor creation / seek during Init is returned unchanged; Optimizer.init - parsing, checking, rewriting - is a thin assumed contract: it has no access to a store), as is FinalOrderPlan, and ProjectionPlan.Batch / processProjectionBatch",
 			"A-STORE: the Storage implementation reports failure only through the returned error",
 		}},
 	"C06": {"proof",
@@ -129,7 +129,7 @@ var propInfo = map[string]struct {
 		[]string{
 			"aggregation is covered at the level of the cache discipline: AggregatePlan.prepare / prepareBatch are proved to hand getAggrKey, createAggrRow and updateRowAggrFunc a context whose per-row cache is coherent with the pair being processed (D23 repaired: the cache is cleared per pair), and the accumulators' Update to require and preserve coherence; the vector forms that fall back to row evaluation run without the shared row cache (D22 repaired)",
 			"per-chunk caches: the typestate that pins D21 is proved - AdjustChunkCache (body verified) and with it every scan batch leave no per-chunk entry behind, and the aggregate's batch key computation requires that; A-CHUNKCACHE (within one scan batch the filtered chunks have distinct first keys, so an entry found under (alias, first key) holds the alias's values on the current chunk) is still an assumption, as are the lengths of the final-result columns that the batch projection reads",
-			"NOT covered: ProjectionPlan.Batch / processProjectionBatch, LimitPlan.Batch's part of the typestate, aliases in ORDER BY, and the statement-level rewriting that replaces names by references",
+			"batch projection: ProjectionPlan.Batch returns one row per pair the child returned and one column per field (select *: the stored key and value), processProjectionBatch is proved safe and of the right shape given that the final-result columns of the scan are at least as long as the chunk (interface clause `finalcols` of Plan.Batch and `colsok` of ExecuteBatch: assumptions about the scans / evaluators, part of A-CHUNKCACHE); that a cached column holds the field's values is NOT proved", "NOT covered: LimitPlan.Batch's part of the typestate, aliases in ORDER BY, and the statement-level rewriting that replaces names by references",
 			"A-ALIAS: every alias reference points at the select field of its name, field names of a statement are distinct (aliasOf is the function from names to select fields); the checker's rewriting is proved to create references only from names (C14) but the link to aliasOf is assumed",
 			"A-EVAL: the outcome of evaluating an expression on a pair is a function of the expression and the pair (evalok / evalv); ev_ref is the documented meaning of a reference",
 			"ProjectionPlan.Next requires a non-nil execution context (it calls ctx.Clear() unconditionally)",
